@@ -2564,6 +2564,7 @@ type program struct {
 	calls    []callSpec
 	feat     []string
 	cnt      map[string]int
+	globals  []string // names of the package variables (nil: not recorded)
 	hasInit  bool
 	directed string // name of the directed case, "" for generated programs
 }
@@ -2629,6 +2630,7 @@ func genProgram(idx int, tuples int) *program {
 	g.funcs = append(g.funcs, preludeFns()...)
 	// a pure, non-failing helper usable in initialisers
 	var resetLines []string
+	resetFuncs := "" // native-only declarations used by ResetGlobals
 	g.noPanic = true
 	g.noCalls = true
 	pure := &fn{name: "pure0", params: []*vr{{name: "a", t: tInt, bound: 1 << 31}, {name: "b", t: tInt, bound: 1 << 31}}, rets: []ty{tInt}, retBound: modBig - 1}
@@ -2709,6 +2711,20 @@ func genProgram(idx int, tuples int) *program {
 		g.f("init-func")
 		k := len(resetLines)
 		name := fmt.Sprintf("init%d", k)
+		if r.Bool() {
+			// the body written into init itself (its return statements leave
+			// _initialize); the native side re-runs a copy of it
+			g.f("init-func-with-body")
+			saved := g.sb
+			g.sb = strings.Builder{}
+			g.genFunc(fnPlan{f: &fn{name: "init"}, stmts: 2 + r.Intn(3), depth: 1, hdr: "func init() {", ftr: "}\n"})
+			body := g.sb.String()
+			g.sb = saved
+			g.sb.WriteString(body)
+			resetFuncs += strings.Replace(body, "func init() {", "func "+name+"() {", 1)
+			resetLines = append(resetLines, name+"()")
+			continue
+		}
 		g.cur = &fn{name: name}
 		g.w("func init() {")
 		g.w("\t%s()", name)
@@ -2770,7 +2786,7 @@ func genProgram(idx int, tuples int) *program {
 			f.params = append(f.params, &vr{name: "_", t: tInt, bound: 1 << 31})
 			g.f("blank-parameter")
 		}
-		switch r.Intn(13) {
+		switch r.Intn(14) {
 		case 8:
 			f.rets = []ty{tInt, tInt}
 		case 9:
@@ -2783,7 +2799,7 @@ func genProgram(idx int, tuples int) *program {
 			f.rets = []ty{tInt, tInt, tStr}
 		case 2:
 			f.rets = []ty{tBool}
-		case 3, 11, 12:
+		case 3, 11, 12, 13:
 			f.rets = nil
 			g.f("procedure")
 		case 4:
@@ -2852,7 +2868,7 @@ func genProgram(idx int, tuples int) *program {
 
 	// ---- assemble the file
 	body := g.sb.String() + prelude
-	reset := "// ResetGlobals re-runs package initialisation (native side only).\nfunc ResetGlobals() {\n\t" + strings.Join(resetLines, "\n\t") + "\n}\n"
+	reset := "// ResetGlobals re-runs package initialisation (native side only).\nfunc ResetGlobals() {\n\t" + strings.Join(resetLines, "\n\t") + "\n}\n\n" + resetFuncs
 	p.src = fmt.Sprintf("package %s\n\n", pkg) + importsFor(body) + body
 	p.reset = fmt.Sprintf("package %s\n\n", pkg) + importsFor(reset) + reset
 	p.locate()
@@ -2861,6 +2877,9 @@ func genProgram(idx int, tuples int) *program {
 	}
 	sort.Strings(p.feat)
 	p.cnt = g.cnt
+	for _, v := range g.globals {
+		p.globals = append(p.globals, v.name)
+	}
 
 	// ---- calls: the first call sees the freshly initialised package
 	ar := rng.New(uint64(idx) + 15_000_000)
